@@ -36,6 +36,27 @@ def pairs(alphabet, endians=("<", ">"), aligns=(False, True)):
     return out
 
 
+REDUCED = ["u8", "u16", "i32", "u64", "i24", "u48", "f32", "char", "wchar", "e8", "ptr", "a_u16_3", "a_char_4", "d_u16", "d_char",
+           "z_char", "inner", "anon_s", "b16_full", "b8_part", "b32_sw8", "b16_sw8_2"]
+
+
+def reduced_programs(seed=0, sample=24):
+    """Smaller quick set for the multi-run pipelines: every kind alone (both byte orders, both modes), ordered pairs of
+    the reduced alphabet in both modes with the byte order alternating, a few seeded longer sequences."""
+    ps = singles()
+    i = 0
+    for a_ in REDUCED:
+        for b_ in REDUCED:
+            if not valid_sequence((a_, b_)) or (a_ in HEAVY and b_ in HEAVY):
+                continue
+            for al in (False, True):
+                ps.append(Program([a_, b_], "<>"[i % 2], al))
+                i += 1
+    light = [k for k in KINDS if k not in HEAVY and k not in REJECTED and k not in EOF_KINDS]
+    ps += sample_programs(light, sample, 3, 4, seed)
+    return dedupe(ps)
+
+
 def quick_programs(seed=0, sample=40):
     ps = singles() + pairs(QUICK)
     light = [k for k in KINDS if k not in HEAVY and k not in REJECTED and k not in EOF_KINDS]
